@@ -253,6 +253,10 @@ def run(ctx):
                             false_t = [x[1] for x in sw["ts"] if x[0] == 0]
                             if false_t and s != false_t[0]:
                                 ok_assert = True
+            # every normal return of the method passes the poison test: no early `return Ok(())` in front of it
+            psw = [bi for bi, b in enumerate(f.blocks) if b["term"]["k"] == "switch" and f.describe_operand(b["term"]["d"]).endswith(".poisoned")]
+            if psw and not all(any(f.dominates(p_, rb_) for p_ in psw) for rb_ in f.return_blocks()):
+                r.violate(key + "|assert-on-every-path", f"{f.key} can return normally without testing self.poisoned (an early return in front of the guard): after a fatal error such a call reports Ok(()) instead of panicking, so the caller cannot tell that the rewriter is dead", f.loc())
             if not ok_assert:
                 r.violate(key + "|assert", f"{f.key}: the call into the transform stream is not guarded by a panic on self.poisoned (use after a fatal error would produce output)", f.loc())
             # (2) Err => poisoned = true
